@@ -22,6 +22,17 @@ OpenSSH lines, SEC 1 / RFC 8032 / RFC 7748 point codecs; none of it imports Cryp
        copies, near-miss variants (same n other e / other d, negated point, other x on the same DSA
        domain) and ElGamal keys:  a == b is True iff same type, same privacy, same components;
        a != b is the negation; comparing two keys of the same type never raises.
+
+Tiers.  quick: the full protection product (84 x 2 prot_params x DER/PEM) on one key per family
+(rsa1024-e65537, dsa1024-160 [84 x DER, cover list x PEM], p256-x00, ed25519-y00-xodd, curve25519-u00)
+and a covering list (every PRF, every cipher, scrypt x every cipher: 24 protections) on all other keys;
+thorough: the full product on every key, on ten primary keys also a third prot_params variant and all five
+passphrases x all 84 protections.  Combinations the documentation excludes (OpenSSH for a private RSA/DSA
+key, protection with pkcs=1, private-key parameters on an ECC public key ...) are executed and logged only.
+
+Known defects of the pinned tree that both tiers re-find (DESIGN 5 #2, #3):
+  C08/eq/DsaKey/different-keys-compare-equal                     DsaKey.__eq__ does getattr() on a dict
+  C08/eq/ElGamalKey/raises-AttributeError@PublicKey.ElGamal.__eq__
 """
 import hashlib
 
@@ -68,10 +79,12 @@ def pps_for(prot, level):
         out = [{"iteration_count": 1}, {"iteration_count": 2}]
         if level == "full+":
             out.append({"iteration_count": 2, "salt_size": 16})
-    return out if level != "cover" else out[:1]
+    return out if level not in ("cover", "mini") else out[:1]
 
 
 def prots_for(level, dsa=False):
+    if level == "mini":
+        return list(PW_PROTS)
     if level == "cover":
         return COVER_DSA if dsa else COVER
     return PROTS
@@ -121,8 +134,10 @@ def dsa_cfgs(priv, level):
           {"format": "OpenSSH"},
           {"format": "PEM", "pkcs8": False, "passphrase": P0, "protection": PW_PROTS[1]},      # protection ignored (documented)
           {"format": "DER", "protection": PW_PROTS[1]}, {"format": "PEM", "protection": PW_PROTS[1]}]
-    for prot in prots_for(level, dsa=True):
+    for prot in prots_for("full" if level == "full-der" else level, dsa=True):
         for f in ("DER", "PEM"):
+            if f == "PEM" and level == "full-der" and prot not in COVER_DSA:
+                continue                 # quick: DsaKey.export_key has no prot_params, every protection costs 5 x PBKDF2(1000)
             c.append({"format": f, "passphrase": P0, "protection": prot})
     c.append({"format": "DER", "pkcs8": True, "passphrase": P0, "protection": PW_PROTS[2]})
     for pw in PWS[1:]:
@@ -818,10 +833,10 @@ def eq_pair(oa, ob, ka, kb, acc, size=None):
     return results
 
 
-def eq_worker(shard):
-    acc = Acc()
-    rows, quick = shard
-    objs = eq_objects(_KEYS, quick)
+_EQ = None
+
+
+def eq_build_all(objs, acc):
     built = []
     for o in objs:
         derived = o["variant"] in ("pk", "imp", "swap")       # produced by a library operation other than construct
@@ -840,6 +855,13 @@ def eq_worker(shard):
             else:
                 acc.observe("equality object of variant %s cannot be built (%s; judged in part rt); skipped" % (o["variant"], type(e).__name__))
             built.append(None)
+    return built
+
+
+def eq_worker(rows):
+    """rows of the matrix; the objects were built once in the parent (inherited through fork)"""
+    acc = Acc()
+    objs, built = _EQ
     n = len(objs)
     for i in rows:
         for j in range(n):
@@ -868,7 +890,7 @@ _KEYS = None
 
 def run(ctx):
     import time
-    global _KEYS
+    global _KEYS, _EQ
     q = ctx.quick
     a = ctx.acc
     for nm, fn in (("c08_ref", R.selftest), ("der", R.D.selftest), ("ec", R.EC.selftest)):
@@ -896,6 +918,8 @@ def run(ctx):
     for kidx, (name, kd) in enumerate(_KEYS.items()):
         for priv in (True, False):
             level = ("full" if name in primary else "cover") if q else ("full+" if name in primary else "full")
+            if q and kd["t"] == "DSA":
+                level = "full-der" if name in primary else ("mini" if kd["p"].bit_length() > 1024 else "cover")
             if not q and kd["t"] == "RSA" and kd["n"].bit_length() >= 2048:
                 level = "cover"
             n = len(cfgs_for(kd, priv, level))
@@ -909,10 +933,11 @@ def run(ctx):
     ctx.pmap(rt_worker, shards)
     phases["rt"] = round(time.time() - t0, 1)
     # ---- eq ----------------------------------------------------------------------------
+    t0 = time.time()
     objs = eq_objects(_KEYS, q)
     nrows = len(objs)
-    t0 = time.time()
-    ctx.pmap(eq_worker, [(list(range(i, nrows, 12)), q) for i in range(12)])
+    _EQ = (objs, eq_build_all(objs, a))
+    ctx.pmap(eq_worker, [list(range(i, nrows, 32)) for i in range(32)])
     phases["eq"] = round(time.time() - t0, 1)
 
     # ---- vacuity guards / evidence -------------------------------------------------------
@@ -964,8 +989,8 @@ def run(ctx):
             "protections": "%d = 11 PBKDF2 PRFs x 7 ciphers + scrypt x 7 ciphers" % len(PROTS),
             "cover_list": "%d protections (every PRF, every cipher, scrypt x every cipher)" % len(COVER),
             "configurations_per_key": {"%s %s [%s]" % (k[0], "private" if k[1] else "public", k[2]): v for k, v in sorted(nconf.items(), key=str)},
-            "levels": ("quick: full product (84 protections x 2 prot_params x DER/PEM) on %s, cover list on the other keys"
-                       % ", ".join(sorted(primary))) if q else
+            "levels": ("quick: full product (84 protections x 2 prot_params x DER/PEM) on %s (DSA: 84 protections x DER, cover list x PEM), "
+                       "cover list on the other keys (4 protections on the 2048/3072-bit DSA keys)" % ", ".join(sorted(primary))) if q else
                       ("thorough: full product (84 protections x 2 prot_params x DER/PEM) on every key; on %s in addition a third prot_params "
                        "variant (16-byte salt; scrypt r=1, p=2) and all 5 passphrases x all 84 protections; cover list on 2048-bit RSA"
                        % ", ".join(sorted(primary))),
